@@ -1,4 +1,6 @@
-From GD Require Import C08.Token C08.TokSpec.
+From GD Require Import C08.Token C08.TokSpec C08.Standards Gen.Gates C08.GatesDefs C08.Names.
 Require Import ExtrOcamlBasic.
 Extraction Language OCaml.
-Extraction "model.ml" tokenise strtok_all tok_impl tok_line tok_spec MAX_IN_COLS.
+Extraction "model.ml" tokenise strtok_all tok_impl tok_line tok_spec MAX_IN_COLS
+  all_gnames code_gate spec_gate code_applies spec_applies
+  validate_field spec_name_ok.
